@@ -403,7 +403,15 @@ class C14(Check):
             pl["csei"] = len(stmts)
             stmts.append(["cse", outs])
             plan.append(pl)
-        res = self.run(stmts)
+        try:
+            res = self.run(stmts)
+        except ValueError as e:
+            # the response line was not JSON: LLVMVisitor::init prints llvm::verifyFunction diagnostics to stdout
+            # (llvm_double.cpp:209) when it generated invalid IR; the pipe is out of sync now
+            if self.drv is not None:
+                self.drv.stop()
+            raise Violation("the driver's response was not a protocol line (LLVM verifier diagnostics on stdout: "
+                            "init generated invalid IR?): %s" % str(e)[:200], {"stmts": engine.prog(stmts)[:6000]})
         good_steps = 0
         nontrivial = False
         for si, (step, pl) in enumerate(zip(case["steps"], plan)):
